@@ -26,4 +26,42 @@ func (*BytecodeCompiler).countFinallyInLoop
     invariant 0 <= finallyCount && finallyCount <= range_idx
     invariant finallyCount + finDown(c, label, len(c.scopes) - 1 - range_idx) == finDown(c, label, len(c.scopes) - 1)
     decreases len(c.scopes) - range_idx
+// ---- closing upvalues on break / continue (C13) -------------------------------------------------
+// A break leaves every scope from the innermost one down to AND INCLUDING its target, a continue
+// every scope down to but NOT including it (the loop scope stays).  The locals of each scope
+// that is left and that closures captured must be closed (moved off the stack) exactly then:
+// closeUpvaluesInScope is called once for each of those scopes, innermost first.  ghost(closes, c)
+// counts the calls.
+spec rec fn downIncl(c *BytecodeCompiler, label string, j int) int = ite(j < 0, 0, 1 + ite(isTarget(c, label, j), 0, downIncl(c, label, j - 1)))
+spec rec fn downExcl(c *BytecodeCompiler, label string, j int) int = ite(j < 0, 0, ite(isTarget(c, label, j), 0, 1 + downExcl(c, label, j - 1)))
+spec fn scopesKept(c *BytecodeCompiler, s0 []*bytecodeScope) bool = sliceptr(c.scopes) == sliceptr(s0) && len(c.scopes) == len(s0)
+
+// emits CLOSE_UPVALUES for the captured locals of one scope; the scope stack and the scopes'
+// kinds and labels are not touched (assumed: the function writes the instruction stream only)
+func (*BytecodeCompiler).closeUpvaluesInScope
+  trusted
+  assigns everything
+  ensures stack: sliceptr(c.scopes) == old(sliceptr(c.scopes)) && len(c.scopes) == old(len(c.scopes))
+  ensures elems: forall j int :: 0 <= j && j < len(c.scopes) ==> elem(c.scopes, j) == old(elem(c.scopes, j)) && elem(c.scopes, j).typ == old(elem(c.scopes, j).typ) && streq(elem(c.scopes, j).label, old(elem(c.scopes, j).label))
+  ensures ghostdef counted: ghost(closes, c) == old(ghost(closes, c)) + 1
+
+func (*BytecodeCompiler).leaveScopeOnBreak
+  props C13
+  requires c != nil && (forall k int :: 0 <= k && k < len(c.scopes) ==> elem(c.scopes, k) != nil)
+  ensures closed: ghost(closes, c) == old(ghost(closes, c)) + old(downIncl(c, label, len(c.scopes) - 1))
+  loop 1
+    invariant sliceptr(c.scopes) == old(sliceptr(c.scopes)) && len(c.scopes) == old(len(c.scopes)) && (forall k int :: 0 <= k && k < len(c.scopes) ==> elem(c.scopes, k) != nil)
+    invariant kept: forall j int :: 0 <= j && j < len(c.scopes) ==> elem(c.scopes, j) == old(elem(c.scopes, j)) && elem(c.scopes, j).typ == old(elem(c.scopes, j).typ) && streq(elem(c.scopes, j).label, old(elem(c.scopes, j).label))
+    invariant count: ghost(closes, c) + old(downIncl(c, label, len(c.scopes) - 1 - range_idx)) == old(ghost(closes, c)) + old(downIncl(c, label, len(c.scopes) - 1))
+    decreases len(c.scopes) - range_idx
+
+func (*BytecodeCompiler).leaveScopeOnContinue
+  props C13
+  requires c != nil && (forall k int :: 0 <= k && k < len(c.scopes) ==> elem(c.scopes, k) != nil)
+  ensures closed: ghost(closes, c) == old(ghost(closes, c)) + old(downExcl(c, label, len(c.scopes) - 1))
+  loop all
+    invariant sliceptr(c.scopes) == old(sliceptr(c.scopes)) && len(c.scopes) == old(len(c.scopes)) && (forall k int :: 0 <= k && k < len(c.scopes) ==> elem(c.scopes, k) != nil)
+    invariant kept: forall j int :: 0 <= j && j < len(c.scopes) ==> elem(c.scopes, j) == old(elem(c.scopes, j)) && elem(c.scopes, j).typ == old(elem(c.scopes, j).typ) && streq(elem(c.scopes, j).label, old(elem(c.scopes, j).label))
+    invariant count: ghost(closes, c) + old(downExcl(c, label, len(c.scopes) - 1 - range_idx)) == old(ghost(closes, c)) + old(downExcl(c, label, len(c.scopes) - 1))
+    decreases len(c.scopes) - range_idx
 @*/
